@@ -153,4 +153,19 @@ theorem walkBlockOf_err {body : Run} {ctx : Scope} {st : St}
   unfold walkBlockOf
   simp only [hcls]
 
+/-- lookups through a scope none of whose frames is writable are unchanged -/
+theorem lookup_ext_W {W : Nat → Prop} {st st' : St} (e : Ext W st st') :
+    ∀ (ctx : Scope), Props.C02.ScopeOk ctx st → (∀ f ∈ ctx, ¬ W f.ref) → ∀ k, lookup st'.heap ctx k = lookup st.heap ctx k := by
+  intro ctx
+  induction ctx with
+  | nil => intro _ _ k; rfl
+  | cons f r ih =>
+    intro hok hw k
+    have hf : f.ref < st.heap.length := hok f List.mem_cons_self
+    have hc : st.heap[f.ref]? = some st.heap[f.ref] := List.getElem?_eq_getElem hf
+    obtain ⟨c', h1, _, h3⟩ := e.keep f.ref _ hc
+    have hg : heapGet st'.heap f.ref = heapGet st.heap f.ref := by
+      simp only [heapGet, h1, hc]; exact h3 (hw f List.mem_cons_self)
+    simp only [lookup, hg, ih (fun x hx => hok x (List.mem_cons_of_mem _ hx)) (fun x hx => hw x (List.mem_cons_of_mem _ hx)) k]
+
 end SoyVerif.Refine
